@@ -22,11 +22,11 @@ def run(prop, tier, seed):
     c = common.Check(prop, tier, seed, "model_checking")
     sibdepth = int(common.run_bin("fs", ["sibdepth"]).strip())
     cfg = os.path.join(c.work, "MC_Paths.cfg")
-    with open("/verif/spec/mc/MC_Paths.cfg") as f:
+    with open(common.VERIF + "/spec/mc/MC_Paths.cfg") as f:
         text = f.read().replace("CONSTANT L = 4", "CONSTANT L = %d" % t["L"]).replace("CONSTANT SibDepth = 3", "CONSTANT SibDepth = %d" % sibdepth)
     with open(cfg, "w") as f:
         f.write(text)
-    r = tlc.run("/verif/spec/Paths.tla", cfg, os.path.join(c.work, "tlc"), workers=1, timeout=1800)
+    r = tlc.run(common.VERIF + "/spec/Paths.tla", cfg, os.path.join(c.work, "tlc"), workers=1, timeout=1800)
     if r.violated:
         raise common.ToolError("Paths.tla violates %s: the specification is wrong" % r.violated)
     edges = [v for tag, v in tlc.tagged(r.text, ("EDGE",))]
